@@ -270,10 +270,28 @@ func CheckC06(tier string) {
 			fail("substitute-error/other/"+where, "returned "+o.ErrText)
 		}
 		// dependents of a failed provider must never be entered
+		exp := s.Eval(r.Case.Ref, r.Sc.Nonce, spec.Mix(0xC7, r.Sc.Nonce))
 		for _, sl := range o.Slots {
 			td := r.Case.Ref.TransDeps(sl.Pid)
 			for _, f := range failedEntered {
 				if td[f] {
+					// Every identity carries the nonce of its call. An entry whose
+					// arguments are all non-zero and none of which is an identity of
+					// THIS call was made by a goroutine that an earlier call left
+					// behind (the known leak after an error on the caller's
+					// goroutine): it says nothing about this call.
+					if want, ok := exp.Args[sl.Pid]; ok && len(sl.Args) > 0 {
+						foreign := true
+						for i, a := range sl.Args {
+							if a == 0 || (i < len(want) && a == want[i]) {
+								foreign = false
+							}
+						}
+						if foreign {
+							rep.Count("entries_by_goroutines_of_an_earlier_call_(ignored)", 1)
+							continue
+						}
+					}
 					fail("dependent-entered", fmt.Sprintf("provider %s was invoked although it depends on the failed provider %s", s.Provs[sl.Pid].Fn, s.Provs[f].Fn))
 				}
 			}
